@@ -70,7 +70,7 @@ def run(tier, seed):
              'of every base behaviour, incl. housekeeping Poll / Unresponsive, ProtocolError, Rejected, while closing) x the four '
              'mechanisms (break, exception in handler, generator.close(), exception leaving a with-block); gc.collect() afterwards; '
              'non-trivial = distinct (event sequence, mechanism, closing?) triples',
-        nontrivial=nontrivial, anchors=anchors, variants=variants, sample_keys=('ev', 'abandon', 'sock', 'sel', 'end'))
+        nontrivial=nontrivial, need_actions=('AppReact', 'RegPoll', 'RegPingTimeout'), anchors=anchors, variants=variants, sample_keys=('ev', 'abandon', 'sock', 'sel', 'end'))
     need = {'abandon_at_' + e for e in EVENTS} | {'mech_' + m for m in rp.MECHS}
     missing = sorted(need - seen)
     return r.finish(vacuous=('never exercised: %s' % missing) if missing else None)
